@@ -64,6 +64,9 @@ type vfC19Net struct {
 	sent     []vfC19Sent
 	hopCh    chan int
 	spin     int // Gosched rounds inside listen (widens the hop's critical section; no virtual time passes)
+	// closeErr: every socket's closing Close call really closes it and then reports an error, as
+	// close(2) may (EIO); the code under test must not let that stop it closing the other sockets
+	closeErr bool
 }
 
 func vfC19NewNet(fail func(int) bool) *vfC19Net {
@@ -269,6 +272,9 @@ func (s *vfC19Sock) Close() error {
 	}
 	s.closed = true
 	close(s.closeCh)
+	if s.net != nil && s.net.closeErr {
+		return &net.OpError{Op: "close", Net: "udp", Err: errors.New("vf: input/output error")}
+	}
 	return nil
 }
 
@@ -872,6 +878,7 @@ func (x *vfC19Run) run(t *testing.T) {
 	k, h := x.k, x.h
 	x.r = rand.New(rand.NewSource(h.VSeed))
 	x.net = vfC19NewNet(func(idx int) bool { return h.fail[idx] })
+	x.net.closeErr = h.VSeed%3 == 0
 	addr := vfC19Resolve(k, h.pc, h)
 	if addr == nil {
 		return
